@@ -358,6 +358,7 @@ struct Session<'d> {
     /// terminate; only ids promised before the fault are looked at from here on
     tainted: bool,
     last_titled_root: Option<Value>,
+    latest_delivery: BTreeMap<usize, CallResult>,
     is_variant: bool,
     step_now: usize,
 }
@@ -392,6 +393,7 @@ impl<'d> Session<'d> {
             extra_schemas: Vec::new(),
             tainted: false,
             last_titled_root: None,
+            latest_delivery: BTreeMap::new(),
             is_variant: false,
             step_now: 0,
         }
@@ -1000,6 +1002,16 @@ fn run_ops_inner(settings: &SettingsDesc, ops: &[Op], faults_mode: bool, attribu
                     Op::ReAdd { of } => (op_sources(ops, *of).clone(), true),
                     o => (o.clone(), false),
                 };
+                let source_index = {
+                    let mut i = step;
+                    while let Op::ReAdd { of } = &ops[i] {
+                        if *of >= i {
+                            break;
+                        }
+                        i = *of;
+                    }
+                    i
+                };
                 if !src.is_add() {
                     // ReAdd of an observer: nothing to deliver
                     s.results.push(None);
@@ -1065,9 +1077,10 @@ fn run_ops_inner(settings: &SettingsDesc, ops: &[Op], faults_mode: bool, attribu
                 let mut first_result: Option<CallResult> = None;
                 let scan_before = s.last_scan.clone();
                 if is_readd && s.clean {
-                    if let Op::ReAdd { of } = op {
-                        first_result = s.results.get(*of).cloned().flatten();
-                    }
+                    // the id the client holds for this schema is the one its most
+                    // recent delivery returned (an id change is reported once, at
+                    // the delivery that caused it)
+                    first_result = s.latest_delivery.get(&source_index).cloned();
                     for (n, _) in Session::op_defs(&src) {
                         if let Ok(id) = s.lookup_def_id(&n) {
                             ids_before.insert(n, id);
@@ -1305,6 +1318,9 @@ fn run_ops_inner(settings: &SettingsDesc, ops: &[Op], faults_mode: bool, attribu
                 }
                 if attribute {
                     resolve_placeholders(&mut s.out, settings, &ops[..=step], faults_mode);
+                }
+                if res.is_ok() {
+                    s.latest_delivery.insert(source_index, res.clone());
                 }
                 s.results.push(Some(res));
                 s.check_promises(step);
